@@ -273,21 +273,44 @@ func parseContractFile(path string) (*ContractFile, error) {
 					return nil, fail("bad loop clause kind %q", sub)
 				}
 			case "after":
-				// after <callee>.<k> assumes <expr>
-				idx := strings.Index(rest, " assumes ")
+				// after <callee>.<k> assumes <expr>          (separation fact / ghost definition, listed as an assumption)
+				// after <callee>.<k> asserts [tags] name: <expr>   (obligation at that program point)
+				// after <callee>.<k> sets <ghost> := <expr>   (ghost assignment)
+				kind, idx, kw := "", -1, ""
+				for _, k := range []string{"assumes", "asserts", "sets"} {
+					if j := strings.Index(rest, " "+k+" "); j >= 0 && (idx < 0 || j < idx) {
+						kind, idx, kw = k, j, " "+k+" "
+					}
+				}
 				if idx < 0 {
 					return nil, fail("bad after clause")
 				}
 				site := strings.TrimSpace(rest[:idx])
-				src := strings.TrimSpace(rest[idx+len(" assumes "):])
+				src := strings.TrimSpace(rest[idx+len(kw):])
+				cl := &Clause{Kind: "after", Line: rc.line}
+				switch kind {
+				case "sets":
+					j := strings.Index(src, ":=")
+					if j < 0 {
+						return nil, fail("bad after ... sets clause")
+					}
+					cl.Kind = "after.sets"
+					cl.Label = strings.TrimSpace(src[:j])
+					src = strings.TrimSpace(src[j+2:])
+				case "asserts":
+					cl.Kind = "after.asserts"
+					tags, label, r3 := splitTagsLabel(src)
+					cl.Tags, cl.Label, src = tags, label, r3
+				}
 				e, err := parseExpr(src)
 				if err != nil {
 					return nil, fail("%v", err)
 				}
+				cl.Src, cl.E = src, e
 				if cur.After == nil {
 					cur.After = map[string][]*Clause{}
 				}
-				cur.After[site] = append(cur.After[site], &Clause{Kind: "after", Src: src, E: e, Line: rc.line})
+				cur.After[site] = append(cur.After[site], cl)
 			case "inline":
 				cur.Inline = true
 			case "trusted":
